@@ -32,23 +32,23 @@ var props = map[string]propInfo{
 	"C01": {
 		Engine: "pbfsim", Race: true, Level: "exploration",
 		QuickRuns: 12000, ThoroughRuns: 400000, QuickSecs: 600, ThoroughSecs: 4 * 3600, Chunk: 400,
-		Rule:   "a run is one PBF file written from a model by the independent writer h/pbfwire (0-12, sometimes up to 40 blocks; header and each of its fields optional; per block granularity/offsets/date granularity present or absent with non-default values, raw or zlib, dense nodes with DenseInfo and each of its six columns and keys_vals present or absent, ways/relations with Info and each field optional, node locations on ways, empty ways/relations, changeset groups, unknown fields, parameter fields before or after the groups; optional parts are toggled with period = decoder count; 1 file in 8 may contain plain Node groups) scanned once at a decoder count from {1,2,3,4,5,7,10,11,16,32} under a drawn reader chunking and delay policy. Non-trivial: two blocks decoded by the same worker differ in their optional parts, or a block has non-default granularity/offsets/date granularity. distinct = distinct (file, decoder count, interleaving hash) among non-trivial executions",
-		Probes: []string{"optional-parts-differ-on-one-worker", "non-default-granularity-or-offset", "more-decoders-than-blocks", "unbuffered-channels", "file-with-plain-node-group"},
+		Rule:   "a run is one PBF file written from a model by the independent writer h/pbfwire (0-12, sometimes up to 40 blocks; header and each of its fields optional; per block granularity/offsets/date granularity present or absent with non-default values, raw or zlib, dense nodes with DenseInfo and each of its six columns and keys_vals present or absent, ways/relations with Info and each field optional, node locations on ways, empty ways/relations, changeset groups, unknown fields, parameter fields before or after the groups; optional parts are toggled with period = decoder count; 1 file in 8 may contain plain Node groups; 1 in 24 has a block with 8001-9500 dense nodes; 1 in 8 starts with a data block) scanned once at a decoder count from {1,2,3,4,5,7,10,11,16,32} under a drawn reader chunking and delay policy. Non-trivial: two blocks decoded by the same worker differ in their optional parts, or a block has non-default granularity/offsets/date granularity. distinct = distinct (file, decoder count, interleaving hash) among non-trivial executions",
+		Probes: []string{"optional-parts-differ-on-one-worker", "non-default-granularity-or-offset", "more-decoders-than-blocks", "unbuffered-channels", "file-with-plain-node-group", "block-with-more-than-8000-elements"},
 		Real:   pbfReal, Simulated: pbfSim,
 		Assumptions: append([]string{"the model of the format defaults is h/pbfwire/gen.go, written from osmformat.proto's documentation", "files have at most ~40 blocks and a few hundred elements"}, commonAssumptions...),
 	},
 	"C02": {
 		Engine: "pbfsim", Race: true, Level: "exploration",
 		QuickRuns: 4000, ThoroughRuns: 150000, QuickSecs: 600, ThoroughSecs: 4 * 3600, Chunk: 200,
-		Rule:   "a run is one generated file (2-12, sometimes up to 40 blocks), a reference scan with 1 decoder and unit delays, and 3 executions at decoder counts drawn from 1..12,16,32 under drawn delay policies (per-goroutine speed classes 1..1000 quanta, consumer 1..4000), reader chunking, and accept-all filter callbacks that are delay points in half of the executions. Oracle: delivered sequence deep-equal to the reference, snapshots at delivery equal values after the scan, no race report, no deadlock. Non-trivial: some later block finished decoding before an earlier one (observed through the callbacks). distinct = distinct (file, decoder count, interleaving hash) among non-trivial executions",
-		Probes: []string{"later-block-finished-before-earlier", "more-decoders-than-blocks", "unbuffered-channels", "slow-filter-callbacks"},
+		Rule:   "a run is one generated file (2-12, sometimes up to 40 blocks; 1 in 3 without a header block, i.e. a resumed stream; 1 in 30 with a block of 8001-9500 elements), a reference scan with 1 decoder and unit delays, and 3 executions at decoder counts drawn from 1..12,16,32 under drawn delay policies (per-goroutine speed classes 1..1000 quanta, consumer 1..4000), reader chunking, and accept-all filter callbacks that are delay points in half of the executions. Oracle: delivered sequence deep-equal to the reference, snapshots at delivery equal values after the scan, no race report, no deadlock. Non-trivial: some later block finished decoding before an earlier one (observed through the callbacks). distinct = distinct (file, decoder count, interleaving hash) among non-trivial executions",
+		Probes: []string{"later-block-finished-before-earlier", "more-decoders-than-blocks", "unbuffered-channels", "slow-filter-callbacks", "block-with-more-than-8000-elements", "stream-starts-with-a-data-block"},
 		Real:   pbfReal, Simulated: pbfSim,
 		Assumptions: commonAssumptions,
 	},
 	"C07": {
 		Engine: "pbfsim", Race: true, Level: "exploration",
 		QuickRuns: 3000, ThoroughRuns: 120000, QuickSecs: 600, ThoroughSecs: 4 * 3600, Chunk: 100,
-		Rule:   "a run is one call history on a PBF scanner (3 in 4; 30-70 block files with a long tail, decoders from {1,2,3,5,11,16}) or an XML scanner (1 in 4; 150-400 elements): optional Header, Scan x k (k biased to the first third, but also up to past the end), then a stop - Close, cancel by the scanning goroutine, or cancel by a second goroutine that sleeps a drawn simulated duration (1..2^17 quanta) so that it lands at an arbitrary instant incl. inside Scan - then further Scan/Err/Close calls from a drawn script, under a drawn delay policy and reader chunking. Oracle: sequential scanner model over the recorded history (simulated timestamps), Err precedence, bytes the reader handed out after the stop <= rest of the block in flight + one block + 4096, goroutine registry empty after Close / after a bare cancel at quiescence, no deadlock, no race report. Non-trivial: the stop was invoked while part of the input was still unread (pipeline in flight)",
+		Rule:   "a run is one call history on a PBF scanner (3 in 4; 40-80 block files, 12-40 KB, with a long tail, decoders from {1,2,3,5,11,16}) or an XML scanner (1 in 4; 300-600 elements with up to 3 long runs of comments/unknown elements so that one Scan spans many reads): optional Header, Scan x k (k biased to the first third, but also up to past the end), then a stop - Close, cancel by the scanning goroutine, or cancel by a second goroutine that sleeps a drawn simulated duration (1..2^17 quanta) so that it lands at an arbitrary instant incl. inside Scan - then further Scan/Err/Close calls from a drawn script, under a drawn delay policy and reader chunking. Oracle: sequential scanner model over the recorded history (simulated timestamps), Err precedence, bytes the reader handed out after the stop <= rest of the block in flight + one block + 4096, goroutine registry empty after Close / after a bare cancel at quiescence, no deadlock, no race report. Non-trivial: the stop was invoked while part of the input was still unread (pipeline in flight)",
 		Probes: []string{"stop-landed-with-input-in-flight", "stop-with-long-unread-tail", "cancel-landed-inside-a-Scan-call", "stop-after-end-of-input", "bare-cancel-quiescence-checked", "unbuffered-channels"},
 		Real:   append([]string{"osmxml scanner + encoding/xml"}, pbfReal...), Simulated: pbfSim,
 		Assumptions: append([]string{"promptness allowance: rest of the block in flight + one further block + 4096 bytes (xml: one 4096-byte buffer refill + 512); deeper read-ahead added by a refactor would need it raised", "Read on the simulated reader always returns"}, commonAssumptions...),
@@ -64,8 +64,8 @@ var props = map[string]propInfo{
 	"C09": {
 		Engine: "pbfsim", Race: true, Level: "exploration",
 		QuickRuns: 1500, ThoroughRuns: 60000, QuickSecs: 600, ThoroughSecs: 4 * 3600, Chunk: 100,
-		Rule:   "a run is one generated file (1-8 blocks) with a drawn skip mask (empty blocks), a full scan that checks FullyScannedBytes / PreviousFullyScannedBytes after every successful Scan against the file's block table, and crash/restart executions: the consumer stops after k objects (k = 0, 1, all and 6 drawn values), persists the reported offset (and, separately, the previous offset) and a new scanner with independently drawn decoder count and schedule is started on data[offset:]; it must yield exactly the remaining objects beginning with the first object of that block. Every restart execution is non-trivial",
-		Probes: []string{"empty-blocks-from-skip-flags", "resumed-scan-starts-at-a-data-block"},
+		Rule:   "a run is one generated file (1-8 blocks) with a drawn skip mask (empty blocks), a full scan that checks FullyScannedBytes / PreviousFullyScannedBytes after every successful Scan against the file's block table, and crash/restart executions: the consumer stops after k objects (k = 0, 1, all and 6 drawn values), persists the reported offset (and, separately, the previous offset) and a new scanner with independently drawn decoder count and schedule is started on data[offset:]; it must yield exactly the remaining objects beginning with the first object of that block. The offsets are also read after the final Scan()==false and after a scan cancelled at a drawn point (by the scanning goroutine after k objects, or by a second goroutine after a drawn simulated delay): the count must be the start of an existing block, not before the block of the most recently returned object and not beyond any undelivered object, and a scanner resumed there must yield exactly the objects from that block on. Every restart execution is non-trivial",
+		Probes: []string{"empty-blocks-from-skip-flags", "resumed-scan-starts-at-a-data-block", "offset-read-after-end-of-input", "offset-read-after-cancelled-scan"},
 		Real:   pbfReal, Simulated: pbfSim,
 		Assumptions: append([]string{"offsets are asserted after successful Scan calls only"}, commonAssumptions...),
 	},
